@@ -8,6 +8,7 @@ mod ev;
 mod mon;
 mod props;
 mod rng;
+#[cfg(feature = "data")]
 mod s3sim;
 mod volgen;
 
@@ -100,6 +101,7 @@ fn main() {
         .and_then(|s| s.as_u64())
         .unwrap_or(seed);
 
+    rng::set_pool_seed(seed);
     mon::install_panic_hook();
     let with_logger = match std::env::var("VERIF_LOGGER").ok().as_deref() {
         Some("0") => false,
